@@ -231,6 +231,8 @@ def install(lib):
                 return isinstance(x, float) or (is_sym(x) and x.sort() == REAL)
             if t.name in ("list", "tuple"):
                 return isinstance(x, list if t.name == "list" else tuple)
+            if t.name == "NoneType":
+                return x is None
             if t.name in ("jax.Array", "jnp.ndarray", "onp.ndarray", "ndarray"):
                 return isinstance(x, Arr) or is_sym(x)
             if isinstance(x, Rec):
@@ -258,6 +260,12 @@ def install(lib):
             if default:
                 return default[0]
             raise
+
+    def b_reversed(ex, x):
+        items = ex.concrete_iter(x)
+        if items is None:
+            raise Unsupported("reversed of symbolic sequence")
+        return list(reversed(list(items)))
 
     def b_sorted(ex, x, key=None, reverse=False):
         items = ex.concrete_iter(x)
@@ -356,7 +364,7 @@ def install(lib):
     B.update(len=b_len, float=b_float, int=b_int, bool=b_bool, round=b_round, max=b_max, min=b_min, abs=b_abs, sum=b_sum, any=b_any, all=b_all,
              range=b_range, isinstance=b_isinstance, hasattr=b_hasattr, getattr=b_getattr, sorted=b_sorted, zip=b_zip, enumerate=b_enumerate,
              list=b_list, tuple=b_tuple, dict=b_dict, set=b_set, filter=b_filter, map=b_map, next=b_next, iter=b_iter, str=b_str, type=b_type,
-             repr=b_str, id=lambda ex, x: getattr(x, "oid", 0))
+             repr=b_str, id=lambda ex, x: getattr(x, "oid", 0), reversed=b_reversed)
     for nm in ("str", "dict", "bool", "int", "float", "list", "tuple"):
         pass
     for exc in ("ValueError", "RuntimeError", "NotImplementedError", "TypeError", "RecursionError", "AssertionError", "KeyError", "IndexError",
@@ -742,6 +750,8 @@ def install(lib):
 
     def tree_map(ex, f, *trees, is_leaf=None):
         used(ex, "jax.tree_util.tree_map applies f leafwise over matching pytrees (dict/list/tuple/dataclass nodes, None = empty subtree)")
+        if not trees:
+            raise RaiseEx("TypeError", msg="tree_map() missing 1 required positional argument: 'tree'")
         return tree_map_impl(ex, f, list(trees), is_leaf)
 
     def tree_leaves(ex, x, is_leaf=None):
